@@ -99,6 +99,15 @@ structure SlotCopy where
   clone : String
   deriving DecidableEq, Repr
 
+/-- round 8: a store into another package's package-level variable (`data.WriteOutput = …`: a process-wide
+"current" hook) made by per-request code (`pkg = "std/net/http"`) or by a script-callable function
+(`pkg = "std/php/core"`) -/
+structure HookStore where
+  pkg    : String
+  fn     : String
+  target : String
+  deriving DecidableEq, Repr
+
 structure Facts where
   cells           : List CellFact
   entries         : List EntryFact
@@ -111,6 +120,7 @@ structure Facts where
   registries      : List RegistrySite -- every use of a package-level map / sync.Map of std/net/http
   captureBinds    : List CaptureBind  -- what closures do with values read from their definition-time environment
   slotCopies      : List SlotCopy     -- the type switch of the slot store `(*Context).SetVariableValue`
+  hookStores      : List HookStore := [] -- stores into process-wide hooks of other packages from per-request / per-call code
   shape           : List String   -- places where the source no longer has the shape the translator understands
   deriving Repr
 
@@ -203,6 +213,25 @@ def Facts.captureViolations (f : Facts) : List String :=
   (if f.captureBinds.any (fun b => b.fn == "LambdaExpression.Call" && b.op == "copy") then []
    else ["capture-binder-without-copying-store:LambdaExpression.Call"]) ++
   ((mutableValueTypes.filter (fun t => !f.slotClones t)).map (fun t => "slot-store-does-not-copy:" ++ t))
+
+/-! ### Process-wide "current" hooks (round 8)
+
+A request that points a process-wide hook at itself and puts the previous value back when it ends is
+right for nested requests only (`Model.ReqOut`, `C11_output_overlap_leaks`). -/
+
+/-- stores made by the request path itself -/
+def Facts.requestHookStores (f : Facts) : List HookStore :=
+  f.hookStores.filter (fun h => h.pkg == "std/net/http")
+
+def Facts.hookViolations (f : Facts) : List String :=
+  f.hookStores.map (fun h =>
+    (if h.pkg == "std/net/http" then "request-path-swaps-process-hook:" else "script-function-swaps-process-hook:")
+      ++ h.fn ++ ":" ++ h.target)
+
+/-- known: the `ob_*` family keeps ONE buffer stack per process and points `data.WriteOutput` at its top
+(finding `output:ob-shared-buffer`) -/
+def knownHookViolations : List String :=
+  ["script-function-swaps-process-hook:outputBufferStack.syncWriter:data.WriteOutput"]
 
 /-- the isolation violations visible in the facts: superglobals cached in package-level
 variables, cached variables the reset does not clear, any other package-level variable on
